@@ -248,7 +248,19 @@ def run_case(case):
         # how close the launch is to the largest angle for which the ray still turns below the surface (link_range window)
         zl = min(z0, z1)
         max_angle_gap = float(np.arcsin(min(1.0, nfun(ztop) / nfun(zl))) - np.arcsin(min(1.0, beta / nfun(zl))))
-        det = dict(geo, solution=j, direct_flag=bool(p.direct), L=L, tof=tof, beta=beta, near_vertical=bool(nv), cancellation_bound_m=canc, max_angle_gap=max_angle_gap)
+        # the analytic tracer's own max_angle is the launch angle (at the lower endpoint) of the ray that turns over exactly at the
+        # upper endpoint; within link_range = 1e-6 rad below it _indirect_r is a straight line instead of the true r(theta)
+        zh = max(z0, z1)
+        link_gap = float(np.arcsin(min(1.0, nfun(zh) / nfun(zl))) - np.arcsin(min(1.0, beta / nfun(zl))))
+        link_window_m = 0.0
+        if case["tracer"] == "specialized" and not p.direct and 0 <= link_gap < 2e-6 and zh < ztop:
+            # mechanism bound, measured on the profile itself: over that window the true range varies by the horizontal extent of the
+            # arc between the upper endpoint's depth and the turning point of the ray launched link_range below max_angle
+            b_link = nfun(zl) * np.sin(np.arcsin(min(1.0, nfun(zh) / nfun(zl))) - 1e-6)
+            if n0 - b_link > 0:
+                zt_link = np.log((n0 - b_link) / k_) / a_
+                link_window_m = float(2.5 * np.sqrt(2 * max(zt_link - zh, 0.0) * nfun(zh) / abs(dn(zh))) + 1.0)
+        det = dict(geo, solution=j, direct_flag=bool(p.direct), L=L, tof=tof, beta=beta, near_vertical=bool(nv), cancellation_bound_m=canc, max_angle_gap=max_angle_gap, link_gap=link_gap, link_window_m=link_window_m)
         sane = np.isfinite(L) and np.isfinite(tof) and 0 < L <= 3 * (np.linalg.norm(b - a) + abs(z0) + abs(z1)) + 10
         if not v.check(bool(sane), "path length is finite and of the size of the geometry", **det):
             continue
@@ -357,9 +369,15 @@ def kf_no_direct_ray_exists(case, viol):
 
 def kf_link_range(case, viol):
     d = viol["detail"]
-    return "max_angle_gap" in d and 0 <= d["max_angle_gap"] < 2e-6 and viol["clause"] in (
-        "launched in the emitted direction the ray arrives at the receiver", "time of flight == integral of n ds / c along the ray",
-        "received direction == the ray's direction at the receiver")
+    if "max_angle_gap" in d and 0 <= d["max_angle_gap"] < 2e-6 and viol["clause"] in (
+            "launched in the emitted direction the ray arrives at the receiver", "time of flight == integral of n ds / c along the ray",
+            "received direction == the ray's direction at the receiver"):
+        return True
+    # launch measured inside the window below the tracer's own max_angle (turn-over at the upper endpoint), and the miss no larger
+    # than the range the true r(theta) sweeps over that window
+    return (d.get("tracer") == "specialized" and d.get("direct_flag") is False and 0 <= d.get("link_gap", -1.0) <= 1.0001e-6
+            and viol["clause"] == "launched in the emitted direction the ray arrives at the receiver"
+            and d.get("deviation", float("inf")) <= d.get("tolerance", 0.0) + d.get("link_window_m", 0.0))
 
 
 def kf_cancellation(case, viol):
